@@ -764,6 +764,12 @@ impl Xot {
         let first_child = first_child.unwrap();
         // there is guaranteed to be a last child if there's a first child
         let last_child = self.last_child(node).unwrap();
+        if self.parent(node).is_none() && first_child != last_child {
+            // the children would end up as siblings without a parent
+            return Err(Error::InvalidOperation(
+                "Cannot unwrap an element without parent that has multiple children".to_string(),
+            ));
+        }
         self.remove_element(node);
 
         let prev_node = self.previous_sibling(first_child);
@@ -812,6 +818,11 @@ impl Xot {
         if self.is_document(node) {
             return Err(Error::InvalidOperation(
                 "Cannot wrap document node".to_string(),
+            ));
+        }
+        if !self.value(node).is_normal() {
+            return Err(Error::InvalidOperation(
+                "Cannot wrap attribute or namespace node".to_string(),
             ));
         }
         // we forbid wrapping nodes under the document node too unless it's the
